@@ -1596,21 +1596,29 @@ impl StreamingQueueCompressor {
                 self.config.concatenated_genomes && (count + 1) % self.config.pack_size == 0;
 
             if need_sync {
-                // Reached synchronization point (every 50 contigs GLOBALLY)
-                // C++ AGC does: cnt_contigs_in_sample = 0; --sample_priority;
-                if let Some(priority) = priorities.get_mut(&sample_name) {
-                    *priority -= 1;
-                }
-
-                // Get the NEW priority (after decrement) for sync tokens
-                let new_priority = *priorities.get(&sample_name).unwrap();
+                // Reached synchronization point (every pack_size contigs GLOBALLY)
+                // C++ AGC does: EmplaceManyNoCost(registration tokens, sample_priority);
+                //               cnt_contigs_in_sample = 0; --sample_priority;
+                // with ONE global sample_priority counter: the tokens carry the priority of
+                // the contigs pushed so far and cost 0, so they are pulled after all of those
+                // contigs and before every later one (later contigs get a lower priority).
+                // A per-sample counter boosted by +1_000_000 overflowed i32 (priorities start
+                // at i32::MAX) and let tokens overtake / fall behind queued contigs depending
+                // on timing, which made the batch composition - and the archive -
+                // nondeterministic.
+                let token_priority = current_priority;
+                let new_priority = {
+                    let mut next_p = self.next_priority.lock().unwrap();
+                    let priority = *next_p;
+                    *next_p -= 1;
+                    priority
+                };
+                priorities.insert(sample_name.clone(), new_priority);
 
                 // Drop locks before inserting sync tokens to avoid deadlock
                 drop(priorities);
 
                 // Insert sync tokens (matches C++ AGC EmplaceManyNoCost)
-                // CRITICAL: Sync tokens must have HIGHER priority than subsequent contigs
-                // to ensure they're processed before any contigs with the new_priority.
                 if self.config.verbosity > 0 {
                     eprintln!(
                         "PACK_BOUNDARY: Inserting {} sync tokens after {} contigs (global count)",
@@ -1624,10 +1632,7 @@ impl StreamingQueueCompressor {
                         sample_name: sample_name.clone(),
                         contig_name: String::from("<SYNC>"),
                         data: Vec::new(),
-                        // Use large priority boost to ensure sync tokens are processed BEFORE any contigs
-                        // With +1, contigs with same priority but higher cost were being popped first
-                        // This caused barrier deadlock when some workers exited before others got sync tokens
-                        sample_priority: new_priority + 1_000_000,
+                        sample_priority: token_priority,
                         cost: 0,
                         sequence,
                         is_sync_token: true,
